@@ -185,6 +185,7 @@ class BehaviourReplay:
         self.kill_override = kill_override   # event index to use for the first non-script Kill instead of the model's point
         self.first_kill_events = None        # number of events of the invocation interrupted by the first Kill (from the dry run)
         self.proj = None
+        self.flag = "plain"                  # command line variant of the current invocation (BobBuild.tla Flags)
         self.violations = []
         self.drift = []
         self.invocations = 0
@@ -198,6 +199,10 @@ class BehaviourReplay:
             c += ["-j", str(self.jobs)]
         if self.define and self.proj is not None:
             c += ["-DV=%s" % self.proj["V"]]
+        if self.flag == "bo":
+            c += ["-b"]
+        elif self.flag == "force":
+            c += ["-f"]
         return c + list(extra)
 
     def paths(self, ws=None):
@@ -279,6 +284,10 @@ class BehaviourReplay:
                 continue
             proj = a["proj"]
             self.apply(proj)
+            self.flag = a.get("flag", "plain")
+            if self.flag != "plain":
+                shape.append("<%s>" % self.flag)
+                self.nontrivial.add("flag:" + self.flag)
             nxt = hist[i] if i < len(hist) else {"a": "End"}
             if nxt["a"] == "Fail":
                 f = os.path.join(self.ctl, "%s.%s.fail" % (nxt["p"], nxt["k"]))
@@ -343,6 +352,17 @@ class BehaviourReplay:
                 r = self.invoke()
                 self.log.append(("ok", r.rc, r.runs(), [m for m in r.msgs() if "PRUNE" in m[1] or "skipped" in m[2]]))
                 what = "after-abort" if aborted_before else "incremental"
+                if self.flag == "bo":
+                    # --build-only promises no up-to-date result (checkouts are not refreshed): nothing is judged
+                    # here; the next plain invocation must converge to the clean build
+                    if r.rc != 0:
+                        self.drift.append("--build-only invocation failed (rc %s)" % r.rc)
+                    if nxt["a"] == "End":
+                        i += 1
+                    shape.append("OK")
+                    continue
+                if self.flag == "force":
+                    what += ":forced"
                 ok = self.check_result(r, proj, bool(a.get("quiet")), what)
                 if a.get("quiet"):
                     self.nontrivial.add("quiet-rebuild")
